@@ -224,3 +224,21 @@ package writecache
 //@   property C46
 //@   callee dynamic:*
 //@   requires [bytes_read_by_the_storage_itself] resultOf(a1, "(*fstree.FSTree).GetBytes")
+// ... and a read error is passed over in silence only when errors are to be ignored or the
+// storage answered "not found" (a removal between listing and reading): any other failure of a
+// read ends the iteration with that error, so that the dump reports the object it could not take.
+//@ ghost pred readFailed() bool
+//@ ghost pred readAnsweredNotFound() bool
+//@ callrule c46_cache_read_verdict in (*cache).Iterate$1
+//@   property C46
+//@   callee (*fstree.FSTree).GetBytes
+//@   pureeffect
+//@   defines (res1 != nil) == readFailed()
+//@ callrule c46_not_found_verdict in (*cache).Iterate$1
+//@   property C46
+//@   callee errors.As, errors.Is
+//@   pureeffect
+//@   defines result ==> readAnsweredNotFound()
+//@ func (*cache).Iterate$1
+//@   property C46
+//@   ensures [read_failure_skipped_only_on_request_or_when_the_object_is_gone] res0 == nil && readFailed() ==> ignoreErrors || readAnsweredNotFound()
